@@ -982,6 +982,8 @@ def run_c12(t):
             rows += [(dd, r, o[3][i]) for i, (dd, r) in enumerate(zip(o[1], o[2]))]
         elif o[0] in ("add", "rem") and base["np"][0] == "tree":
             rows = [x for x in rows if x[0] != o[1]]      # the arm's tree and leaf rewards are dropped / created empty
+    if not rows:
+        return True, {"skipped": "no stored rows left"}
     X = np.asarray([r[2] for r in rows], dtype=float)
     d = X.shape[1]
     kind, hp = base["lp"][0], base["lp"][1]
